@@ -58,7 +58,7 @@ OP_CLAUSES = {
              ('C15', 'field.size'), ('C15', 'field.maxsize')],
     'clear': [('C15', 'empties_memory'), ('C15', 'stats.zeroed_unless_kept'), ('C15', 'bookkeeping_emptied[queue]'),
               ('C08', 'archives_untouched')],
-    'load': [], 'dump': [], 'archived': [],
+    'load': [], 'dump': [], 'archived': [], 'attach': [],
 }
 REJECT_CLAUSES = ['rejected_archive_write_loses_nothing', 'rejected_archive_write_propagates']
 INV = {'no': [], 'inf': [], 'lfu': ['Inv_lfu'], 'lru': ['Inv_lru.refcount', 'Inv_lru.resident', 'Inv_lru.sentinel'],
@@ -83,7 +83,7 @@ def operations(universe, safe):
                 'unhashable_call': True})
     ops += [{'op': 'clear', 'clear_mode': 'default'}, {'op': 'clear', 'clear_mode': 'keyword', 'keep': True},
             {'op': 'load', 'keys': []}, {'op': 'load', 'keys': [1]}, {'op': 'dump', 'keys': []}, {'op': 'dump', 'keys': [0]},
-            {'op': 'archived', 'flag': False}, {'op': 'archived', 'flag': True},
+            {'op': 'archived', 'flag': False}, {'op': 'archived', 'flag': True}, {'op': 'attach'},
             {'op': 'key', 'call': {'key_elem': 1, 'keygen_raises': False, 'user_raises': False}},
             {'op': 'lookup', 'call': {'key_elem': 1, 'keygen_raises': False, 'user_raises': False}},
             {'op': 'lookup', 'call': {'key_elem': universe - 1, 'keygen_raises': False, 'user_raises': False}},
@@ -155,9 +155,7 @@ def explore(module, cls, maxsizes=(1, 2), purges=(False, True), universe=3, dept
             if only is not None and ('C18' in only or 'C11' in only):
                 archs.append('ignore')          # decorated with ignore='verbose' (a bare string naming a parameter), dict archive
             for arch in archs:
-                if purge and arch == 'none':
-                    continue
-                res['configs'] += 1
+                res['configs'] += 1         # (purge with no archive at decoration: one may be attached later)
                 init = {'module': module, 'cls': cls, 'maxsize': M, 'purge': purge, 'universe': universe,
                         'arch0': 'dict' if arch in ('rejecting', 'ignore') else arch,
                         'mem': {}, 'A': None if arch == 'none' else {}, 'S': None, 'stats': [0, 0, 0]}
@@ -225,6 +223,8 @@ def _short(op):
         return '%s(%s)' % (o, ','.join(map(str, op['keys'])))
     if o == 'archived':
         return 'archived(%s)' % op['flag']
+    if o == 'attach':
+        return 'archive(dict_archive())'
     if o == 'clear':
         return 'clear(keepstats=%s)' % bool(op.get('keep'))
     return o
@@ -273,7 +273,7 @@ def linear_search(module, cls, only, depth=7, budget_s=40.0, universe=4, recursi
     call_ops = [{'op': 'call', 'call': {'key_elem': e, 'keygen_raises': False, 'user_raises': False}} for e in range(universe)]
     extra = [{'op': 'load', 'keys': []}, {'op': 'clear', 'clear_mode': 'default'}, {'op': 'dump', 'keys': []}]
     maxsizes, purges = ((1,), (False,)) if pol in ('no', 'inf') else ((2, 1), (False, True))
-    for (opset, maxlen) in ((call_ops, depth), (call_ops[:3] + extra, min(depth, 5))):
+    for (opset, maxlen) in ((call_ops, depth), (call_ops + extra, min(depth, 5))):
         for M in maxsizes:
             for purge in purges:
                 for arch in ('dict', 'none'):
